@@ -32,6 +32,13 @@ impl<CS: ConcurrentStream> ConcurrentStream for Take<CS> {
     where
         C: Consumer<Self::Item, Self::Future>,
     {
+        // `TakeConsumer` only stops *after* forwarding an item, so taking zero
+        // items must not drive the underlying stream at all.
+        if self.limit == 0 {
+            let consumer = core::pin::pin!(consumer);
+            return consumer.flush().await;
+        }
+
         self.inner
             .drive(TakeConsumer {
                 inner: consumer,
